@@ -35,3 +35,9 @@ claim("C04", "other",
       "Decides the shape of the shutdown protocol that is necessary for 'every call fails, none hangs': broadcast on every receiver exit, exactly-once notification and latch under the mutex, refusal after close, send errors delivered through the table, buffered result channels, writer closed and receiver joined, and in the four concurrent transfers cancellable or drained sends, closed work channels, workers that never leave their loop, single close of cancel. Bounded-time liveness itself is not claimed.",
       "Assumes closing the writer unblocks the reader's Read and the optional ssh Wait hook returns.",
       "DESIGN.md section 4, C04")
+
+claim("C01", "other",
+      "symbolic (affine) comparison of SSA offset/length/cursor expressions per transfer loop; value provenance at server read/write sites",
+      "Decides, for all 12 client transfer sites and all 6 server read/write sites, the structural necessary conditions of byte-exact transfer: offset = start + cursor, buffer region starts at the same cursor, cursor advances by the bytes covered, length field = chunk length, chunk bounded by maxPacket, work item agrees with its request, server uses the packet's own offset/buffer and answers buf[:n], reads clamped to the server maximum. Does not decide equality of bytes under reordering.",
+      "Assumes io.ReaderAt/io.WriterAt contracts of the backing object and that the client's packet size does not exceed the server's maximum (the property's premise).",
+      "DESIGN.md section 4, C01")
